@@ -25,7 +25,7 @@ META = {
                    'documentation); the sampling correspondence of __getitem__.'),
     'rule': ('cases = (dialect, table size n, chain of slices, optional index, ordering variant); exhaustive over bounds in '
              '[-n-2,n+2]+None for single slices (+index) and chains of two on small n, seeded random chains of three beyond; '
-             'distinct = distinct (n, chain, index); non-trivial = the chain is not the identity'),
+             'plus a re-use stream (one select object sliced several times, every window and the select itself re-read afterwards); distinct = distinct (n, chain, index); non-trivial = the chain is not the identity'),
     'trusted': ['reference LIMIT/OFFSET grammar+semantics per dialect (Model/Slice.lean clauseOf/sem); mysql and postgres not executable here',
                 'Python list slicing model pySlice/pyIndex (cross-checked against CPython on every case)'],
     'modelled': ['SQLite engine LIMIT/OFFSET behaviour (executed, not verified)', 'mssql/sybase/maxdb/firebird: no OFFSET support or own syntax; outside the theorem'],
@@ -125,6 +125,51 @@ def run_oracle(full, ops, ix):
         return 'IndexError'
 
 
+def run_reuse(n, ops, ix, variant):
+    """the SAME select object is sliced several times (pagination): every window, evaluated after all of
+    them were cut, and the select itself must still be what list slicing gives.  -> list of (label, impl, oracle)"""
+    base = base_select(n, variant)
+    full = list(base)
+    rank = {obj.id: i for i, obj in enumerate(full)}
+    ids = list(range(len(full)))
+
+    def rows(sel):
+        try:
+            return 'rows' + ''.join(' %d' % rank[o.id] for o in list(sel))
+        except Exception as e:
+            return 'error:%s' % type(e).__name__
+
+    def orows(l):
+        return 'rows' + ''.join(' %d' % x for x in l)
+    out = []
+    try:
+        wins = [base[a:b] for a, b in ops]
+        # windows of the first window, cut after it was created
+        sub = [wins[0][a:b] for a, b in ops[1:]]
+    except Exception as e:
+        return [('cutting windows', 'error:%s' % type(e).__name__, 'ok')]
+    if ix is not None:
+        try:
+            got = 'item %d' % rank[base[ix].id]
+        except IndexError:
+            got = 'IndexError'
+        except Exception as e:
+            got = 'error:%s' % type(e).__name__
+        try:
+            want = 'item %d' % ids[ix]
+        except IndexError:
+            want = 'IndexError'
+        out.append(('s[%d] after slicing s' % ix, got, want))
+    for (a, b), w in zip(ops, wins):
+        out.append(('s[%s:%s] after all windows were cut' % (fmt_bound(a), fmt_bound(b)), rows(w), orows(ids[a:b])))
+    a0, b0 = ops[0]
+    for (a, b), w in zip(ops[1:], sub):
+        out.append(('s[%s:%s][%s:%s] after its siblings were cut' % (fmt_bound(a0), fmt_bound(b0), fmt_bound(a), fmt_bound(b)),
+                    rows(w), orows(ids[a0:b0][a:b])))
+    out.append(('s itself after slicing it', rows(base), orows(ids)))
+    return out
+
+
 def sql_text(sel, dialect):
     from sqlobject.sresults import SelectResults
     from sqlobject.sqlbuilder import sqlrepr
@@ -207,6 +252,13 @@ def run(ctx):
                             'select%s%s on %d rows (order %s) gives %s, the list gives %s'
                             % (''.join('[%s:%s]' % (fmt_bound(a), fmt_bound(b)) for a, b in ops),
                                '' if ix is None else '[%d]' % ix, n, variant, res, oracle), desc)
+        if len(ops) >= 2 and (idx % 7 == 0 or idx < 12):
+            for label, got, want in run_reuse(n, ops, ix, variant):
+                ctx.case(('reuse', n, tuple(ops), ix, label), nontrivial=True, kind='reuse-same-select')
+                if got != want:
+                    ctx.oracle_fail('C10:reuse %s' % line_for('sqlite', n, ops, ix),
+                                    'one select of %d rows (order %s) sliced repeatedly %s: %s gives %s, the list gives %s'
+                                    % (n, variant, ops, label, got, want), dict(desc, reuse=True))
         for d in dialects:
             if outs is not None:
                 mres, msql = outs[k].split(' | ')
@@ -219,6 +271,10 @@ def run(ctx):
 def replay(case):
     env()
     ops = [tuple(x) for x in case['ops']]
+    if case.get('reuse'):
+        r = run_reuse(case['n'], ops, case['index'], case.get('order', 'v'))
+        bad = [x for x in r if x[1] != x[2]]
+        return not bad, '\n'.join('%s: implementation %s, list %s' % x for x in (bad or r))
     res, sel, full = run_impl(case['n'], ops, case['index'], case.get('order', 'v'))
     oracle = run_oracle(full, ops, case['index'])
     return res == oracle, 'implementation: %s\nlist oracle  : %s' % (res, oracle)
